@@ -374,8 +374,8 @@ package utils
 //@   loop 2 invariant wfS(s) && n == old(n)
 // absent() / absent_over_time(): only the labels of the selector's equality matchers come back, and all of them
 //@   ghost eq []string
-//@   after call labelsFromSelectors#5 set eq = result
-//@   at call labelsFromSelectors#5 assert len(arg0) == 1 && arg0[0] == labels.MatchEqual && arg1 == s.Selector
+//@   after call labelsFromSelectors set eq = result
+//@   at call labelsFromSelectors assert len(arg0) == 1 && arg0[0] == labels.MatchEqual && arg1 == s.Selector
 //@   loop 1 invariant 0 <= iter1 && iter1 <= len(eq) && s.FixedLabels && sepS(s, eq)
 //@   loop 1 invariant subset(s.IncludedLabels, eq)
 //@   loop 1 invariant subset(s.GuaranteedLabels, eq)
@@ -393,6 +393,9 @@ package utils
 //@   ensures wfS(result)
 //@   ensures (n.Func.Name == "label_replace" || n.Func.Name == "label_join") && litOK ==> canHave(result, lit) && in(result.GuaranteedLabels, lit)
 //@   ensures !restricting(n.Func.Name) ==> (forall x string :: canHave(s, x) ==> canHave(result, x))
+// C12: a function that passes labels through cannot make a label guaranteed that its input does not guarantee
+// (the input may be an aggregation that removed the labels its selector matched on)
+//@   ensures [C12] !restricting(n.Func.Name) && n.Func.Name != "label_replace" && n.Func.Name != "label_join" ==> subset(result.GuaranteedLabels, s.GuaranteedLabels)
 
 // group_left(I) / group_right(I) copy the labels of I from the "one" side (and drop them when it lacks them): such a
 // label stays guaranteed only if every source of the "one" side guarantees it.
